@@ -16,8 +16,8 @@ import time
 from . import build
 
 VERIF = build.VERIF
-EVID = os.path.join(VERIF, "evidence")
-REPLAY = os.path.join(VERIF, "replay")
+EVID = os.path.join(VERIF, "evidence") if not build.ALT else os.path.join(build.WORK, "evidence")
+REPLAY = os.path.join(VERIF, "replay") if not build.ALT else os.path.join(build.WORK, "replay")
 KNOWN = os.path.join(VERIF, "known_findings.jsonl")
 NPROC = int(os.environ.get("VF_JOBS", "16"))
 PY = "/usr/bin/python3"
@@ -61,7 +61,7 @@ def san_summary(outdir, tag):
             msg = re.sub(r"'[^']*'", "T", msg)
             kind = "ubsan:" + re.sub(r"[^A-Za-z]+", "-", msg).strip("-")[:60]
     # top frames inside /repo
-    frames = re.findall(r"#\d+ 0x[0-9a-f]+ in (\w+) (/repo/[^\s:]+):(\d+)", txt)
+    frames = re.findall(r"#\d+ 0x[0-9a-f]+ in (\w+) (/[^\s:]+/src/[^\s:]+):(\d+)", txt)
     where = ["%s@%s:%s" % (f, os.path.basename(p), l) for f, p, l in frames[:4]]
     return kind, where, txt[-6000:]
 
